@@ -43,6 +43,7 @@ def check(chk):
     run = repo.func(GM, G + "._run")
     _drain_chain(chk, repo)
     _end_requests_unconditional(chk, repo)
+    _per_game_limits(chk, repo)
     from sa.helpers import game_ended_only_through_its_api
     game_ended_only_through_its_api(chk, "PAIR-7")
     _game_end_waits(chk)
@@ -495,6 +496,25 @@ def _end_requests_unconditional(chk, repo):
            text="end_ball releases the wait", path=gcfg.fmt_path(path, g) if path else None, nontrivial=True)
 
 
+def _per_game_limits(chk, repo):
+    """LIMIT-6: how many balls a game has and how many players it takes is decided when the game starts, every time: Game._run evaluates the
+    `balls_per_game` and `max_players` templates on every path before the first turn (the Game object is reused from game to game; the
+    settings behind the templates may change between two games)."""
+    f = repo.func(GM, "Game._run")
+    chk.analysed(f)
+    cfg = f.cfg()
+    for attr, key in (("self.balls_per_game", "balls_per_game"), ("self.max_players", "max_players")):
+        st = [n for n in cfg.nodes if n.kind == "stmt" and isinstance(n.ast, ast.Assign) and src(n.ast.targets[0]) == attr and isinstance(n.ast.value, ast.Call) and
+              call_attr(n.ast.value) == "evaluate" and ("['%s']" % key) in src(n.ast.value).replace('"', "'")]
+        chk.need(st, "LIMIT-6", "Game._run takes %s from the game configuration" % key, f)
+        w = cfg.must_pass(cfg.entry.id, [n.id for n in st])
+        first_turn = [n.id for n, c in cfg.calls_named("_start_player_turn", "_start_ball", "_run_ball")]
+        before = all(cfg.path_avoiding(cfg.entry.id, [t], [n.id for n in st], ignore_exc=True) is None for t in first_turn) if first_turn else True
+        chk.ob("LIMIT-6", "every game evaluates %s afresh before its first turn (no carry-over from the previous game)" % key, w is None and before, f.where(st[0].ast),
+               detail="guards %s" % sorted(cfg.guards_at(st[0].id).items()), construct=f.ident, text="per-game evaluation of " + key,
+               path=cfg.fmt_path(w, f) if w else None, nontrivial=True)
+
+
 def _drain_chain(chk, repo):
     """DRAIN-6: the route from a ball entering a drain device to the game's ball count: the ball controller listens on the entrance event
     of every device tagged drain or trough (exactly those), relays the *unclaimed* balls as `ball_drain`, and the game subtracts what the
@@ -571,6 +591,7 @@ def _game_end_waits(chk):
 def battery():
     from sa.battery import M
     return [
+        M("balls per game read once per machine run", GM, "        self.balls_per_game = self.machine.config['game']['balls_per_game'].evaluate([])", "        if self.balls_per_game is None:\n            self.balls_per_game = self.machine.config['game']['balls_per_game'].evaluate([])", "LIMIT-6"),
         M("second end_game request ignored", GM, "        self.ending = True\n        self.end_ball()\n\n    def _game_ending_completed", "        if self.ending:\n            return\n        self.ending = True\n        self.end_ball()\n\n    def _game_ending_completed", "END-6"),
         M("twin: ending flag set only when clear", GM, "        self.ending = True\n        self.end_ball()\n\n    def _game_ending_completed", "        if not self.ending:\n            self.ending = True\n        self.end_ball()\n\n    def _game_ending_completed", None),
         M("end_ball ignored while ending", GM, "        self._end_ball_event.set()\n\n    async def _end_ball", "        if not self.ending:\n            self._end_ball_event.set()\n\n    async def _end_ball", "END-6"),
